@@ -150,12 +150,78 @@ def ops_design(rng, hist):
     return b
 
 
+def mem_design(rng, hist):
+    """the memory grid: one small memory whose port signals are top-level inputs, so that the stimulus makes reads and
+    writes of the same row coincide all the time: 1-3 write ports (mostly one domain, optional granularity), 1-2 read
+    ports (combinational, or synchronous with a transparency set that is any subset of the write ports of its domain,
+    in any order)"""
+    from amaranth.hdl import Signal, Module, ClockDomain, signed, unsigned
+    from amaranth.lib.memory import Memory
+    from .. import gen_hier, gen_expr
+    b = gen_hier.Built()
+    m = Module()
+    kinds = [rng.choice(["sync", "sync", "none", "async"])] + ([rng.choice(["sync", "none"])] if rng.random() < 0.35 else [])
+    b.domains = []
+    for k, kind in enumerate(kinds):
+        name = ["sync", "d1"][k]
+        cd = ClockDomain(name, clk_edge=rng.choice(["pos", "pos", "neg"]), reset_less=(kind == "none"), async_reset=(kind == "async"))
+        m.domains += cd
+        b.domains.append((name, cd, cd.clk_edge, kind))
+    w = rng.randint(1, 6)
+    gran = w // 2 if (w % 2 == 0 and rng.random() < 0.4) else None
+    depth = rng.choice([1, 2, 2, 3, 4])
+    shape = unsigned(w) if gran or rng.random() < 0.7 else signed(w)
+    mem = Memory(shape=shape, depth=depth, init=[gen_expr.rand_value(rng, shape) for _ in range(rng.randint(0, depth))])
+    m.submodules.mem = mem
+    pool, wps = [], []
+    for k in range(rng.randint(1, 3)):
+        di = 0 if rng.random() < 0.8 else rng.randrange(len(kinds))
+        wp = mem.write_port(domain=b.domains[di][0], granularity=gran)
+        ins = [Signal(len(wp.addr), name=f"wa{k}"), Signal(shape, name=f"wd{k}"), Signal(len(wp.en), name=f"we{k}")]
+        m.d.comb += [wp.addr.eq(ins[0]), wp.data.eq(ins[1]), wp.en.eq(ins[2])]
+        pool += ins
+        wps.append((wp, di))
+    hist[f"memgrid:write_ports={len(wps)}"] = 1
+    b.mem_obs = []
+    outs = []
+    for k in range(rng.randint(1, 2)):
+        if rng.random() < 0.25:
+            rp = mem.read_port(domain="comb")
+            ra = Signal(len(rp.addr), name=f"ra{k}")
+            m.d.comb += rp.addr.eq(ra)
+            pool.append(ra)
+            hist["memgrid:read_comb"] = 1
+        else:
+            di = 0 if rng.random() < 0.8 else rng.randrange(len(kinds))
+            same = [wp for wp, dj in wps if dj == di]
+            tf = [wp for wp in same if rng.random() < 0.7]
+            rng.shuffle(tf)
+            rp = mem.read_port(domain=b.domains[di][0], transparent_for=tuple(tf))
+            ra, re = Signal(len(rp.addr), name=f"ra{k}"), Signal(1, name=f"re{k}", init=1)
+            m.d.comb += [rp.addr.eq(ra), rp.en.eq(re)]
+            pool += [ra, re]
+            hist[f"memgrid:read_sync_transparent_for={len(tf)}of{len(same)}"] = 1
+        out = Signal(shape, name=f"rd{k}")
+        m.d.comb += out.eq(rp.data)
+        outs.append(out)
+    pool += outs
+    b.top, b.pool = m, pool
+    b.ports = list(pool) + [s for _n, cd, _e, kind in b.domains for s in ([cd.clk] + ([cd.rst] if kind != "none" else []))]
+    b.has_f9 = b.has_f25 = b.has_dup_tf = False
+    b.n_leaves = 0
+    b.foreign, b.inputs, b.ioports, b.ranges = [], pool[:len(pool) - len(outs)], [], {}
+    b.roles = ["input"] * (len(pool) - len(outs)) + ["driven"] * len(outs)
+    return b
+
+
 def build(seed, opts, drop=frozenset()):
     from .. import gen_hier as gen_design
     rng = random.Random(seed)
     hist = {}
     if opts.get("ops_grid"):
         return ops_design(rng, hist), hist, rng
+    if opts.get("mem_grid"):
+        return mem_design(rng, hist), hist, rng
     b = gen_design.gen_design(rng, hist, instances=False, iobufs=False, all_ports=True, drop=drop, **opts)
     return b, hist, rng
 
@@ -229,7 +295,7 @@ def design_case(seed, opts, n_events=None, drop=frozenset(), events=None):
     from amaranth.hdl import Fragment
     from amaranth.back import rtlil
     case = {"seed": seed, "opts": opts,
-            "stream": "ops" if opts.get("ops_grid") else "f9" if opts.get("allow_f9") else "f25" if opts.get("allow_f25") else "dup_tf" if opts.get("dup_tf") else "main"}
+            "stream": "ops" if opts.get("ops_grid") else "mem" if opts.get("mem_grid") else "f9" if opts.get("allow_f9") else "f25" if opts.get("allow_f25") else "dup_tf" if opts.get("dup_tf") else "main"}
     try:
         b1, hist, _ = build(seed, opts, drop)
         b2, _h, rng = build(seed, opts, drop)
@@ -335,9 +401,14 @@ def first_mismatch(case, resp):
     if d.get("eval") != "ok":
         return "reject"
     model, sim = parse_rows(d["trace"]), case["sim"]
-    for t, (mr, sr) in enumerate(zip(model, sim)):
-        if mr != sr:
-            return t, next(j for j in range(len(sr)) if mr[j] != sr[j])
+    model1 = parse_rows(d["trace1"]) if d.get("xdep") == "1" else model
+    stop = int(d.get("collide", "-1"))
+    for t, (mr, m1, sr) in enumerate(zip(model, model1, sim)):
+        if 0 <= stop <= t:
+            break
+        for j in range(len(sr)):
+            if mr[j] == m1[j] and mr[j] != sr[j]:
+                return t, j
     return None
 
 
@@ -442,7 +513,18 @@ def judge(chk, case):
         chk.not_shown("trace length differs", dict(replay, model=len(model), sim=len(sim)))
         return
     undefined = 0
+    # two write ports writing different data to the same bits of a row in one event: the RTLIL leaves the row
+    # undefined (no priority between the ports: PRIORITY_MASK 0) while the simulator's result depends on its process
+    # order (different clocks) or port order, and what a transparent read port forwards on the order of its
+    # transparency list; nothing after that event is compared
+    stop = int(d.get("collide", "-1"))
+    if stop >= 0:
+        chk.hist("outcome", "write_write_collision")
+        chk.extra["write_collisions"] = chk.extra.get("write_collisions", 0) + 1
     for t, (mr, m1, sr) in enumerate(zip(model, model1, sim)):
+        if 0 <= stop <= t:
+            undefined += len(sr) * (len(sim) - t)
+            break
         for k in range(len(sr)):
             if mr[k] != m1[k]:
                 # the RTLIL value depends on the resolution of an undefined (x) value: it is undefined here, and the
@@ -558,7 +640,7 @@ def run(chk):
     n_side = 60 if quick else 800
     base = dict(memories=True, layouts=True)
     plan = [(n_main, dict(base)), (n_side, dict(base, allow_f9=True)), (n_side, dict(base, allow_f25=True)),
-            (n_side, dict(base, dup_tf=True)), (2 * n_side, dict(ops_grid=True))]
+            (n_side, dict(base, dup_tf=True)), (2 * n_side, dict(ops_grid=True)), (2 * n_side, dict(mem_grid=True))]
     args = []
     for n, opts in plan:
         seeds = [rng.getrandbits(48) for _ in range(n)]
@@ -589,4 +671,38 @@ def run(chk):
         "different clocks are exercised",
         "undefined (x) RTLIL values (read-port INIT_VALUE, reads outside a memory, unguarded division by zero) are resolved "
         "to all-zeros and to all-ones; an observation that differs between the two is undefined in the RTLIL and is not "
-        "compared (coverage.undefined_in_rtlil counts them); an x that cancels out under both resolutions is not detected"]
+        "compared (coverage.undefined_in_rtlil counts them); an x that cancels out under both resolutions is not detected",
+        "two write ports that write different data to the same bits of a row in one event: no port has priority in the "
+        "RTLIL (PRIORITY_MASK 0), so the row is undefined there, while the simulator's result depends on process or port "
+        "order and a transparent read port forwards in the order of its transparency list; the trace of that design is "
+        "not compared from that event on (coverage.write_collisions)"]
+
+
+def replay(chk, path):
+    """rebuild the recorded design from its seed, convert and simulate it again on the current tree, evaluate the
+    RTLIL with the Lean evaluator and print where the two differ; exit 1 if they still do"""
+    import json
+    rep = json.load(open(path))["replay"]
+    seed, opts = int(rep["design_seed"]), rep.get("opts") or {}
+    if isinstance(opts, str):
+        import ast
+        opts = ast.literal_eval(opts)
+    case = design_case(seed, opts)
+    if "request" in case and "sim" in case:
+        case["resp"] = common.Driver(EXE).ask([case["request"]])[0]
+    judge(chk, case)
+    flush = globals().get("flush_reports")
+    if flush:
+        flush(chk)
+    for summary, r in chk.violations:
+        print("VIOLATION", summary[:400])
+        for k in ("event_index", "events", "signal", "wire", "simulator", "rtlil"):
+            if k in r:
+                print(f"   {k}: {str(r[k])[:600]}")
+    for fid, n in chk.known_seen.items():
+        print(f"KNOWN-FINDING {fid} (seen {n}x)")
+    for what, _d in chk.unshown:
+        print("NOT SHOWN", what)
+    if not chk.violations and not chk.unshown:
+        print("not reproduced on the current tree")
+    return common.EXIT_VIOLATION if (chk.violations or chk.unshown) else common.EXIT_OK
